@@ -12,7 +12,6 @@ NA = {
  'C09': 'schedules over compactor passes and tokio mutexes; no installed solver-based engine encodes them from the real code',
  'C10': 'multi-session, multi-threaded schedules; same reason as C09',
  'C15': 'fault propagation through tokio tasks and async_broadcast channels; no encodable unit',
- 'C16': 'NOT NULL/type enforcement lives in the async INSERT->storage path; the static-vs-runtime type table is a concrete cross-product; the cast arms INSERT relies on are decided under C14',
  'C17': 'structural check of concrete plans with no symbolic data; the program quantifier cannot be made symbolic; malformed optimized plans surface as C01 findings',
  'C18': 'read path is async + moka (where "every later read" lives); the detection predicate alone hits CPUID asm in crc32fast, memory exhaustion on a symbolic flip position and a getenv FFI call on the error path under Kani - what would remain verifies stubs',
 }
@@ -39,7 +38,7 @@ def main():
         },
         'engines': [
             {'name': 'R', 'path': 'relsmt', 'serves_properties': ['C01', 'C02', 'C12', 'C13'], 'kind_free_text': 'python+z3: rewrite rules applied by the real egg rules / plans from the real binder+optimizer encoded over K-row symbolic tables with 3VL; counterexamples replayed through the real executor'},
-            {'name': 'M', 'path': 'mirsmt', 'serves_properties': ['C02', 'C06', 'C11', 'C13', 'C14', 'C19', 'C20'], 'kind_free_text': 'python+z3: symbolic interpretation of rustc MIR dumped from /repo on every run (kernels, evaluator arms, aggregate state machine, block seek, nullable block iterator, interval accessors; std/bitvec primitives as natives); multiply/divide-by-constant chains decided by an exact bit-vector->integer translation'},
+            {'name': 'M', 'path': 'mirsmt', 'serves_properties': ['C02', 'C06', 'C11', 'C13', 'C14', 'C16', 'C19', 'C20'], 'kind_free_text': 'python+z3: symbolic interpretation of rustc MIR dumped from /repo on every run (kernels, evaluator arms, aggregate state machine, block seek, nullable block iterator, interval accessors; std/bitvec primitives as natives); multiply/divide-by-constant chains decided by an exact bit-vector->integer translation'},
             {'name': 'K', 'path': 'kani', 'serves_properties': ['C06', 'C19', 'C14'], 'kind_free_text': 'Kani 0.68 / CBMC proof harnesses over the compiled crate (codecs, plain blocks, DataValue laws, bit-vector primitives)'},
         ],
         'checks': [],
